@@ -1,6 +1,8 @@
 #!/bin/bash
 # usage: sweep.sh <seed>...   runs every registered check's quick tier for each seed without touching evidence;
 # prints one line per run; used to look for flakiness on the unchanged tree
+# in a `vp run --with-repo` snapshot build against the snapshot of /repo, not /repo itself
+if [ -n "${VP_RUN_REPO:-}" ]; then sed -i "s#path = \"/repo\"#path = \"$VP_RUN_REPO\"#" harness/Cargo.toml; cp $VP_RUN_REPO/Cargo.lock harness/Cargo.lock.repo 2>/dev/null; fi
 ids=$(python3 -c "import json;print(' '.join(c['property_id'] for c in json.load(open('MANIFEST.json'))['checks']))")
 export VERIF_NO_EVIDENCE=1 VERIF_REPLAY_DIR=${VERIF_REPLAY_DIR:-/tmp/sweep-replays}
 mkdir -p $VERIF_REPLAY_DIR
